@@ -54,6 +54,10 @@ def make_cases(rng, tier):
             nfail = rng.choice([0, 0, 1, 1, 2]) if k > 0 else 0
             failing = rng.sample(FAILING, 1) if nfail >= 1 else []      # one failing child: cited positions are deterministic
             combos.append((chosen, failing))
+    # the SAME statement written two or three times in one block runs two or three times (children are statements, not texts)
+    for k in (2, 3):
+        for ch in pool:
+            combos.append(([ch] * k + rng.sample(pool, 1), []))
     for chosen, failing in combos:
         for hold_kind in ("none", "func-child"):
             kids = [fresh(c) for c in chosen + failing]
@@ -112,7 +116,7 @@ def canonical_calls(c, o):
     return probs, out
 
 
-RULE = ("conc blocks of 0-6 children drawn from 9 non-failing shapes (assignments to a local, a struct field, a map entry, an assignment whose right-hand side calls a function; function, method and three-level calls) plus at most one failing child "
+RULE = ("conc blocks of 0-6 children drawn from 9 non-failing shapes (assignments to a local, a struct field, a map entry, an assignment whose right-hand side calls a function; function, method and three-level calls) (also the same child written two or three times), plus at most one failing child "
         "(undefined name, assignment to a name or struct injected by value or to a missing field, panicking function or method, missing function or method), shuffled; each block twice: plain, and with an extra child Hold(\"gate\") that the adversary blocks until nothing else happens for a quiet period; "
         "`Mark(1)` precedes and `Mark(99)` follows the block, the rule returns values written by the children; checked by the driver on the global call order: every child's call exactly once, all of them (and the held child's release) before Mark(99), "
         "Mark(99) absent when the block fails; checked inside Coq (after rewriting the block's calls into spawn order): outcome class, cited positions, returned value, host objects afterwards; "
